@@ -9,6 +9,7 @@ Variable P : prims.
 
 Inductive chapoly_err := ChaPolyDecryptError.
 Inductive dh_err := DhError.
+Inductive noise_err := NDecrypt | NDh | NOther.
 
 (* repaired code (fix F1): a ciphertext shorter than the tag is an error value, not a panic.
    [short_ct_panics] = true models the code before the repair (usize underflow in
